@@ -6,6 +6,7 @@ import (
 	"bufio"
 	"io"
 	"strings"
+	"sync/atomic"
 )
 
 // SSEEvent is one dispatched server-sent event.
@@ -30,6 +31,7 @@ type SSEReader struct {
 	Raw      []byte // all bytes consumed (when KeepRaw)
 	KeepRaw  bool
 	Comments int
+	ncomm    atomic.Int64
 }
 
 // NewSSEReader wraps r.
@@ -96,6 +98,7 @@ func (s *SSEReader) Next() (*SSEEvent, error) {
 		}
 		if strings.HasPrefix(line, ":") {
 			s.Comments++
+			s.ncomm.Add(1)
 			ev.Comments = append(ev.Comments, line)
 			continue
 		}
